@@ -249,7 +249,7 @@ fn parse_directive_definition(
     tokens: &mut PeekableLexer,
     description: Option<WithEmbeddedLocation<DescriptionValue>>,
 ) -> DiagnosticResult<GraphQLDirectiveDefinition> {
-    let _at = tokens.parse_token_of_kind(TokenKind::At);
+    let _at = tokens.parse_token_of_kind(TokenKind::At)?;
     let name = tokens.parse_string_key_type(TokenKind::Identifier)?;
 
     let arguments = parse_optional_enclosed_items(
